@@ -329,7 +329,13 @@ def rule_euclidean(ctx, m):
             trip = c[1]
     okt = False
     if trip is not None:
-        kws = dict((k_, v_) for k_, v_ in trip[3])
+        # arguments bound against the signature of inner_dist_fns (given by keyword or by position)
+        from ..pyres import bind_args
+        tgt_ = m.py('dtaidistance.innerdistance').funcs.get('inner_dist_fns')
+        try:
+            kws, _x1, _x2 = bind_args(tgt_, False, trip)
+        except Exception:   # noqa
+            kws = dict((k_, v_) for k_, v_ in trip[3])
         okt = kws.get('inner_dist') == ('var', 'inner_dist') and kws.get('use_ndim') == ('var', 'use_ndim')
         # the summand is position 0 of the same triple
         used0 = any(x[0] == 'call' and x[1] == ('idx', trip, ('num', 0)) for lp in loops for s_ in walk_stmts(lp[5].body) for e_ in stmt_exprs(s_)
@@ -478,7 +484,7 @@ def rule_ndim_siblings(ctx, m):
     from ..inline import map_expr
     ex = Exec()
     ex.run(f.body, Env())
-    rets = [v for p_, v, st in ex.returns if v is not None and st.k == 'return']
+    rets_p = [(p_, v) for p_, v, st in ex.returns if v is not None and st.k == 'return']
 
     def fixed(e, val):
         def f_(x):
@@ -492,5 +498,13 @@ def rule_ndim_siblings(ctx, m):
     def callee(e):
         cs = [dotted(x[1]) for x in walk_expr(e) if x[0] == 'call' and (dotted(x[1]) or '').startswith('dtw_cc.')]
         return cs
-    ok = len(rets) == 1 and callee(fixed(rets[0], False)) == ['dtw_cc.distance'] and callee(fixed(rets[0], True)) == ['dtw_cc.distance_ndim']
+    def reached(val):
+        """callees of the returns that can be reached with use_ndim fixed to val"""
+        out = []
+        for p_, v in rets_p:
+            if any(fixed(c, val) == ('bool', False) for c in p_):
+                continue
+            out.extend(callee(fixed(v, val)))
+        return out
+    ok = bool(rets_p) and reached(False) == ['dtw_cc.distance'] and reached(True) == ['dtw_cc.distance_ndim']
     ctx.check(ok, 'R-VAR', pm.path, 'distance_fast', 'n-D selection', 'distance_fast must call dtw_cc.distance_ndim exactly when use_ndim is set', f.line)
